@@ -161,6 +161,15 @@ def live_join_model(it, args, kwargs):
 
 
 def run(chk):
+    # the analyses start from the per-block use / assign sets: what a block reads BEFORE assigning it and what it
+    # assigns (BB.compute_variable_stats / VariableVisitor) — obligations shared with C08
+    from .C08 import varstats_section
+    for i in range(4):
+        chk.section(f"variable-stats-{i}", lambda i=i: varstats_section(chk, i, 4))
+    chk.section("analyses", lambda: analyses(chk))
+
+
+def analyses(chk):
     e = mk_engine(chk)
     e.elems = {"BB": EBB, "Var": EVAR, "Node": ENODE}
     e.opaque_attr["BB"] = bb_attr
